@@ -12,6 +12,7 @@ var (
 	ErrItemTypeLength           = errors.New("insufficient itemType Length")
 	errLargeBox                 = errors.New("unexpectedly large box")
 	ErrWrongBoxType             = errors.New("error wrong box type")
+	ErrIlocFieldSize            = errors.New("iloc box field size not supported")
 
 	// ErrInfeVersionNotSupported is returned when an infe box with an unsupported was found.
 	ErrInfeVersionNotSupported = errors.New("infe box version not supported")
